@@ -63,6 +63,16 @@ theorem refused_publisher_is_disconnected (s : Srv) (c : Sid) (st : Stream) (a :
 example : results Code.fixed init [.startPull 5 false (some 0) 9, .rOpen 1, .rPublish 1 5 true, .rOpen 2, .rPublish 2 5 true,
     .rtpPub 3 5, .custAdd 4 5, .pullAttach 9] = [.ok, .ok, .ok, .ok, .refused, .refused, .refused, .refused] := by decide
 
+/-- non-vacuity: a relay-pull attempt that was stopped (`stop_relay_pull`) or kicked while it was still
+    connecting is refused when the origin answers — the calls themselves succeed —, the stream stays
+    without input, and the next attempt attaches -/
+example : results Code.fixed init [.startPull 5 false none 9, .stopPull 5, .stopPull 5, .pullAttach 9,
+      .startPull 5 false none 10, .kick 5 10, .kick 5 10, .pullAttach 10, .startPull 5 false none 11, .pullAttach 11] =
+      [.ok, .ok, .fail, .refused, .ok, .ok, .fail, .refused, .ok, .ok] ∧
+    inputsAt (run Code.fixed [.startPull 5 false none 9, .stopPull 5, .pullAttach 9]) 5 = [] ∧
+    inputsAt (run Code.fixed [.startPull 5 false none 9, .stopPull 5, .pullAttach 9, .startPull 5 false none 11, .pullAttach 11]) 5 = [11] := by
+  decide
+
 /-- The departure, failure or kick of any session other than the accepted input of a stream — the end of
     a connection, a second command, a protocol error, the end of a customize / GB28181 / relay-pull
     session, an API kick — leaves that stream's input and pipeline unchanged. Holds in EVERY state. -/
@@ -153,6 +163,11 @@ example : let s := run Code.fixed [.startPull 5 false (some 0) 9, .rOpen 1, .rPu
       .pullAttach 9, .sOpen 3, .sAnnounce 3 4 5 true, .rClose 1]
     proj s.log 1 = [.pubStart, .pubStop] ∧ proj s.log 2 = [] ∧ proj s.log 9 = [.pullStop] ∧ proj s.log 4 = [] := by decide
 
+/-- non-vacuity: an attempt stopped while connecting reports its one stop and no start; the one after it both -/
+example : let s := run Code.fixed [.startPull 5 false none 9, .stopPull 5, .pullAttach 9, .startPull 5 false none 10,
+      .pullAttach 10, .stopPull 5, .pullDone 10]
+    proj s.log 9 = [.pullStop] ∧ proj s.log 10 = [.pullStart, .pullStop] := by decide
+
 /-! ### the defects of the pinned tree (`Code.pinned`), as concrete histories -/
 
 /-- S8: a relay-pull attempt that never attached fails after a publisher was accepted: the publisher is
@@ -178,5 +193,10 @@ example : (step Code.pinned (run Code.pinned [.custAdd 1 5, .custDel 1, .rOpen 2
 
 /-- a relay pull that has not attached (a publisher overtook it) gets its media broadcast -/
 example : (step Code.pinned (run Code.pinned [.startPull 5 false (some 0) 9, .rOpen 1, .rPublish 1 5 true]) (.pullMedia 9)).2 = .fwd 5 := by decide
+
+/-- (found by C17) `stop_relay_pull` does not see an attempt that is still connecting: it reports failure, and
+    when the origin answers the attempt attaches although relay pull was stopped -/
+example : results Code.pinned init [.startPull 5 false none 9, .stopPull 5, .pullAttach 9] = [.ok, .fail, .ok] ∧
+    inputsAt (run Code.pinned [.startPull 5 false none 9, .stopPull 5, .pullAttach 9]) 5 = [9] := by decide
 
 end Lal.Props.C03
